@@ -52,6 +52,7 @@ type Ctx struct {
 	Explanation string
 	Extra  map[string]interface{}
 	vacuityDone bool
+	mutated     map[string]bool
 }
 
 type ruleInfo struct {
